@@ -89,4 +89,105 @@ theorem atomic_publish_safe (g : Nat → Int) (s0 : State) (l : Nat) :
 
 example : runAlone (fun _ => 7) (fun _ => 1) [.read 3, .memo 4, .read 3] = [some 1, some 7, some 1] := by decide
 
+
+theorem inv_refl (g : Nat → Int) (isMemo : Nat → Bool) (s0 : State) : Inv g isMemo s0 s0 :=
+  fun _ => ⟨fun _ => rfl, fun _ => Or.inl rfl⟩
+
+/-- what a scheduled run keeps true: every thread's observations so far, followed by what it would
+    still observe if it ran alone from here, are its observations when run alone from the start -/
+def Agree (g : Nat → Int) (s0 s : State) (th0 ths : List (List Step)) (obs : List (List (Option Int))) : Prop :=
+  ths.length = th0.length ∧ obs.length = th0.length ∧
+  ∀ u, u < th0.length → obs.getD u [] ++ runAlone g s (ths.getD u []) = runAlone g s0 (th0.getD u [])
+
+theorem getD_set (l : List (List Step)) (t u : Nat) (x : List Step) :
+    (l.set t x).getD u [] = if t = u ∧ t < l.length then x else l.getD u [] := by
+  simp only [List.getD_eq_getElem?_getD, List.getElem?_set]
+  by_cases h : t = u
+  · subst h
+    by_cases h2 : t < l.length
+    · simp [h2]
+    · simp [h2, List.getElem?_eq_none (Nat.le_of_not_lt h2)]
+  · simp [h]
+
+theorem getD_modify (l : List (List (Option Int))) (t u : Nat) (f : List (Option Int) → List (Option Int)) :
+    (l.modify t f).getD u [] = if t = u ∧ t < l.length then f (l.getD u []) else l.getD u [] := by
+  simp only [List.getD_eq_getElem?_getD, List.getElem?_modify]
+  by_cases h : t = u
+  · subst h
+    by_cases h2 : t < l.length
+    · simp [h2, List.getElem?_eq_getElem h2]
+    · simp [h2, List.getElem?_eq_none (Nat.le_of_not_lt h2)]
+  · simp [h]
+
+/-- **non-interference for every interleaving**: any number of threads, any schedule; operations made
+    of reads of never-written locations and of memo publications.  At every point of the run, what
+    each thread has observed so far is a prefix of what it observes when run alone, and the rest of
+    its alone-run is what it would still observe. -/
+theorem noninterference (g : Nat → Int) (isMemo : Nat → Bool) (s0 : State) (th0 : List (List Step))
+    (sched : List Nat) : ∀ (s : State) (ths : List (List Step)) (obs : List (List (Option Int))),
+    Inv g isMemo s0 s → (∀ th ∈ ths, ∀ st ∈ th, okStep isMemo st = true) → Agree g s0 s th0 ths obs →
+    ∃ s' ths', Inv g isMemo s0 s' ∧ (∀ th ∈ ths', ∀ st ∈ th, okStep isMemo st = true) ∧
+      Agree g s0 s' th0 ths' (runSched g s ths sched obs) := by
+  induction sched with
+  | nil => intro s ths obs hi hok ha; exact ⟨s, ths, hi, hok, by simpa [runSched] using ha⟩
+  | cons t rest ih =>
+    intro s ths obs hi hok ha
+    simp only [runSched]
+    cases hth : ths[t]? with
+    | none => exact ih s ths obs hi hok ha
+    | some th =>
+      cases th with
+      | nil => exact ih s ths obs hi hok ha
+      | cons st more =>
+        have htlt : t < ths.length := (List.getElem?_eq_some_iff.mp hth).1
+        have hmem : (st :: more) ∈ ths := List.mem_of_getElem? hth
+        have hst : okStep isMemo st = true := hok _ hmem st List.mem_cons_self
+        obtain ⟨hinv', hobs⟩ := exec_inv g isMemo s0 s st hst hi
+        simp only
+        apply ih
+        · exact hinv'
+        · intro th' hth' x hx
+          rcases List.mem_or_eq_of_mem_set hth' with h | h
+          · exact hok th' h x hx
+          · subst h; exact hok _ hmem x (List.mem_cons_of_mem _ hx)
+        · obtain ⟨hl1, hl2, hag⟩ := ha
+          refine ⟨by simp [hl1], by simp [hl2], ?_⟩
+          intro u hu
+          rw [getD_set, getD_modify]
+          by_cases hut : t = u
+          · subst hut
+            have h1 : t < ths.length := htlt
+            have h2 : t < obs.length := by omega
+            simp only [h1, h2, and_self, if_true]
+            have hget : ths.getD t [] = st :: more := by
+              rw [List.getD_eq_getElem?_getD, hth]; rfl
+            have := hag t hu
+            rw [hget] at this
+            simp only [runAlone] at this
+            rw [← this, List.append_assoc]
+            rfl
+          · simp only [hut, false_and, if_false]
+            -- another thread: its alone-run from the new state is its alone-run from the old one
+            have hu' : u < ths.length := by omega
+            have hmemu : ths.getD u [] ∈ ths := by
+              rw [List.getD_eq_getElem?_getD, List.getElem?_eq_getElem hu']; exact List.getElem_mem _
+            have e1 := runAlone_inv g isMemo s0 (exec g s st).1 (ths.getD u []) (hok _ hmemu) hinv'
+            have e2 := runAlone_inv g isMemo s0 s (ths.getD u []) (hok _ hmemu) hi
+            rw [e1, ← e2]
+            exact hag u hu
+
+/-- from the initial state with nothing observed yet: after ANY schedule, a thread that has run to its
+    end has observed exactly what it observes alone -/
+theorem finished_threads_observe_as_alone (g : Nat → Int) (isMemo : Nat → Bool) (s0 : State) (th0 : List (List Step))
+    (hok : ∀ th ∈ th0, ∀ st ∈ th, okStep isMemo st = true) (sched : List Nat) :
+    ∀ u, u < th0.length →
+      ∃ left, (runSched g s0 th0 sched (List.replicate th0.length [])).getD u [] ++ left = runAlone g s0 (th0.getD u []) := by
+  intro u hu
+  have h0 : Agree g s0 s0 th0 th0 (List.replicate th0.length []) := by
+    refine ⟨rfl, by simp, ?_⟩
+    intro v hv
+    simp [List.getD_eq_getElem?_getD, List.getElem?_replicate, hv]
+  obtain ⟨s', ths', _, _, _, _, hag⟩ := noninterference g isMemo s0 th0 sched s0 th0 _ (inv_refl g isMemo s0) hok h0
+  exact ⟨_, hag u hu⟩
+
 end PqV.Props.C20
